@@ -860,7 +860,7 @@ def _expand(fi: FuncInfo, caller_names: set[str], st: ast.stmt, select: Callable
     return out or [ast.copy_location(ast.Pass(), st)]
 
 
-def _expression_helper(h: FuncInfo) -> ast.AST | None:
+def _expression_helper(h: FuncInfo, allow_line: bool = False) -> ast.AST | None:
     """the returned expression when the helper's body is just `return <expr>` (after the docstring)"""
     if not inlinable(h.node):
         return None
@@ -870,7 +870,7 @@ def _expression_helper(h: FuncInfo) -> ast.AST | None:
     # a straight line of single-assignment locals followed by the return (`escaped = f(x); return f'"{escaped}"'`) is the
     # expression obtained by writing each local out where it is read - when every local is bound once, read at most once (so
     # nothing is evaluated twice or in another order) and not a parameter
-    if 2 <= len(body) <= 5 and isinstance(body[-1], ast.Return) and body[-1].value is not None and all(isinstance(b, ast.Assign) and len(b.targets) == 1 and isinstance(b.targets[0], ast.Name) for b in body[:-1]):
+    if allow_line and 2 <= len(body) <= 5 and isinstance(body[-1], ast.Return) and body[-1].value is not None and all(isinstance(b, ast.Assign) and len(b.targets) == 1 and isinstance(b.targets[0], ast.Name) for b in body[:-1]):
         params = {a.arg for a in h.node.args.args + h.node.args.kwonlyargs}  # type: ignore[attr-defined]
         names = [b.targets[0].id for b in body[:-1]]  # type: ignore[attr-defined]
         if len(set(names)) == len(names) and not (set(names) & params):
@@ -1011,7 +1011,9 @@ class _ExprInliner(ast.NodeTransformer):
             return n
         if is_generator(h.node):
             return n  # only where it is consumed at once (above)
-        expr = _expression_helper(h)
+        # (a straight-line helper is written out as one expression only where a statement cannot stand: inside a
+        # comprehension / conditional expression; everywhere else it is read in place statement by statement, locals kept)
+        expr = _expression_helper(h, allow_line=bool(self.conditional))
         bound = _bind_args(h, n)
         if bound is None:
             return n
